@@ -691,6 +691,28 @@ pub fn generate(family: &str, seed: u64, count: usize, emit: &mut dyn FnMut(Stri
                 emit(format!("rt {} {} {} {}", p, ro, fast_flag(), enc_value_text(&v)));
             }
         }
+        "sens" => {
+            // which options does the reading of a text depend on?  token corpus in every position under a sample of
+            // option sets, then random and malformed texts under random option sets
+            let ros = all_ropts();
+            for (ti, tok) in TOKEN_CORPUS.iter().enumerate() {
+                for (pi, pos) in POSITIONS.iter().enumerate() {
+                    let text = pos.replace("@", tok);
+                    for k in 0..3 {
+                        let ro = &ros[(ti * 131 + pi * 17 + k * 389 + r.0 as usize % 1536) % ros.len()];
+                        emit(format!("sens {} {} {}", fast_flag(), ro, hex(text.as_bytes())));
+                    }
+                }
+            }
+            for _ in 0..count {
+                let (text, ro) = match r.below(3) {
+                    0 => { let n = 1 + r.below(8); (gen_token_soup(&mut r, n, false), gen_ropts(&mut r)) }
+                    _ => random_text(&mut r),
+                };
+                if text.len() > 200 { continue; }
+                emit(format!("sens {} {} {}", fast_flag(), ro, hex(&text)));
+            }
+        }
         "specrd" => {
             // texts the REAL printer writes for plain values, to be read by the independent reader of the documented
             // grammar (LexprModel/Spec): default options -> Scheme reader, Emacs Lisp options -> Emacs Lisp reader
